@@ -1,5 +1,6 @@
 import FluteModel.Lemmas.BencStream
 import FluteModel.Lemmas.BencSim
+import FluteModel.Lemmas.BencEmpty
 /-
   C20 - object sources interchangeable.
 
@@ -76,6 +77,28 @@ theorem each_transfer_rereads_n {P : Params} {c : Bytes} {aL aS nL n : Nat} (h :
   rw [runAll_eq_runPairs]
   exact ⟨nTransfers_stream h.setup h.accepts h.part h1 fuel k st hst,
          nTransfers_buffer h.setup h.accepts h.part h1 fuel k⟩
+
+/-- the empty object: buffer and stream both send the lone empty packet, then `None` - when the codec yields no shard for
+    the empty buffer (`Quiet`: No-Code, Reed-Solomon).  Forced or not, any schedule, any position. -/
+theorem stream_eq_buffer_empty (P : Params) (hnl : P.legacy = false) (hl : P.len = 0) (hw : 1 ≤ P.window)
+    (hq : Flute.BencEmpty.Quiet P) (closable f : Bool) (st : BlockEnc.Stream) (hst : st.bytes = []) :
+    ∃ sb0 ss0 sb2 ss2, Enc.new P (.buffer []) closable = .ok sb0 ∧ Enc.new P (.stream st) closable = .ok ss0 ∧
+      BlockEnc.read P sb0 f = (.pkt emptyPkt, sb2) ∧ BlockEnc.read P ss0 f = (.pkt emptyPkt, ss2) ∧
+      (∀ f', (BlockEnc.read P sb2 f').1 = .none) ∧ (∀ f', (BlockEnc.read P ss2 f').1 = .none) := by
+  obtain ⟨sb0, sb2, h1, h2, h3⟩ := Flute.BencEmpty.empty_buffer P hl hw hq closable f
+  obtain ⟨ss0, ss2, g1, g2, g3⟩ := Flute.BencEmpty.empty_stream P hnl hl hw st hst closable f
+  exact ⟨sb0, ss0, sb2, ss2, h1, g1, h2, g2, h3, g3⟩
+
+/-- … and NOT for RaptorQ / Raptor (finding `empty-object-fec-buffer-vs-stream`): negation witness on the model of the
+    current code - the buffer source sends the empty block's 2 repair symbols, the stream source the lone packet -/
+theorem empty_object_raptorq_stream_ne_buffer :
+    (match Enc.new { codec := raptorQ (fun _ _ _ _ => []), e := 4, b := 3, p := 2, window := 2, len := 0 } (.buffer []) true,
+           Enc.new { codec := raptorQ (fun _ _ _ _ => []), e := 4, b := 3, p := 2, window := 2, len := 0 }
+             (.stream { bytes := [], pos := 0, sched := [] }) true with
+     | .ok a, .ok b =>
+        ((runAll { codec := raptorQ (fun _ _ _ _ => []), e := 4, b := 3, p := 2, window := 2, len := 0 } 8 a).length,
+         (runAll { codec := raptorQ (fun _ _ _ _ => []), e := 4, b := 3, p := 2, window := 2, len := 0 } 8 b).length)
+     | _, _ => (0, 0)) = (2, 1) := by decide
 
 /-- every transfer re-reads the source from its start: the encoder a transfer starts with does not depend on
     where the previous transfer left the stream -/
